@@ -1,4 +1,5 @@
 import NdnProofs.Lemmas.CodecRT
+import NdnProofs.Lemmas.CodecReenc
 import NdnProofs.Lemmas.ClassMerge
 /-!
 # C08 — TLV models encode to exact, minimal TLV and decode back to equal values
@@ -12,6 +13,9 @@ differs from the key's, no marker fields) and `fitsFs fs vs` (decidable "legal a
 per field, text is valid UTF-8, name components are single TLV elements, lists hold present values,
 dicts hold present keys and values with pairwise different keys).  Everything is for **all**
 schemas and values (structural induction over the schema/value trees and field lists).
+The decoder side closes the loop: `parse_wf` — whatever `parse` accepts satisfies `fitsFs` (and 64-bit / wire-length
+bounds), so `reencode_parses_back` / `reencode_succeeds` (decode ∘ encode ∘ decode = decode) need no hypothesis on
+the value.
 The last section is about the metaclass: how the field list of a class with base classes / `IncludeBase`
 comes about (`Ndn.Codec.mergeFields`), for **all** class bodies and bases.
 -/
@@ -510,5 +514,58 @@ example : mergeFields [some [("m2".toList, Schema.uint 2 none)]]
 /-- `IncludeBase` of a class that is not a direct base -/
 example : mergeFields (α := Schema) [some []] [("_b".toList, .includeBase 1)] = .error .includeBaseError := by rfl
 end MergeExamples
+
+end Ndn.C08
+
+namespace Ndn.C08
+open Ndn Ndn.Codec
+
+/-! ### what the decoder accepts is well-formed, and re-encodes to something that decodes to the same model -/
+
+/-- **parse_wf.** Whatever `parse` accepts — from **any** byte string — is well-formed in the sense the encoder
+    theorems need (`parse_enc_roundtrip`, `unknown_noncritical_skipped`, `unknown_critical_rejected`):
+    it is a legal assignment for the schema (`fitsFs`: one value per field, shapes of repeated / map fields as
+    declared, text valid UTF-8, every name component one complete TLV element, lists and dicts hold present
+    values, dict keys pairwise different), every integer is below 2^64, and every byte string / name is at most
+    as long as the wire it was read from (`boundedL`). -/
+theorem parse_wf (fs : List Schema) (ic : Bool) (w : Bytes) (vs : List Value) (hw : wfTop fs = true)
+    (h : parse fs ic w = .ok vs) : fitsFs fs vs = true ∧ boundedL w.length vs = true := by
+  simp only [wfTop, Bool.and_eq_true] at hw
+  exact parse_accept fs ic w vs hw.1 h
+
+/-- **reencode_parses_back.** decode ∘ encode ∘ decode = decode: when an accepted wire's model is encoded again,
+    the result decodes (with either setting of `ignore_critical`) to exactly the model that was accepted — no
+    hypothesis on the value is left, it comes from `parse_wf`.  The one premise is that `encode` succeeds;
+    `reencode_succeeds` says when it must. -/
+theorem reencode_parses_back (fs : List Schema) (ic : Bool) (w : Bytes) (vs : List Value) (b : Bytes)
+    (hw : wfTop fs = true) (h : parse fs ic w = .ok vs) (he : encFields fs vs = .ok b) :
+    ∀ ic', parse fs ic' b = .ok vs :=
+  fun ic' => parse_enc_roundtrip fs vs b ic' hw (parse_wf fs ic w vs hw h).1 he
+
+/-- **reencode_succeeds.** For a class without `fixed_len` integer fields whose Type numbers fit 64 bits
+    (`reFs`, decidable) and a wire shorter than 2^64 bytes, re-encoding what `parse` accepted succeeds, is not
+    longer than the wire (integers, Types and Lengths are re-written in shortest form; skipped unknown elements,
+    overwritten dict entries and a truncated trailing Value are not written), and decodes to the accepted model.
+    Side conditions, and why they are needed: (1) `|w| < 2^64` — `write_tl_num` cannot write a longer Length;
+    (2) no `fixed_len` — the decoder accepts any of the widths 1, 2, 4, 8 for every integer field, so a field
+    declared `fixed_len=1` can come back as 300, which `encode` refuses (`ValueError`, see the example below). -/
+theorem reencode_succeeds (fs : List Schema) (ic : Bool) (w : Bytes) (vs : List Value)
+    (hw : wfTop fs = true) (hr : reFs fs = true) (hlen : w.length < 2 ^ 64) (h : parse fs ic w = .ok vs) :
+    ∃ b, encFields fs vs = .ok b ∧ b.length ≤ w.length ∧ ∀ ic', parse fs ic' b = .ok vs := by
+  have hw' := hw
+  simp only [wfTop, Bool.and_eq_true] at hw'
+  obtain ⟨b, h1, h2⟩ := reencode_ok fs ic w vs hw'.1 hr hlen h
+  exact ⟨b, h1, h2, reencode_parses_back fs ic w vs b hw h h1⟩
+
+/-! non-vacuity: a wire with a non-minimal integer, an unknown non-critical element and a repeated dict key is
+    accepted; its model re-encodes to a shorter wire that decodes to the same model -/
+example : reFs exMapFs = true := by decide
+example : parse exMapFs false
+    [0x81, 2, 0, 1, 0x64, 1, 0, 0x85, 1, 107, 0x87, 1, 9, 0x85, 1, 107, 0x87, 1, 5, 0x85, 2, 0xC3, 0xA9, 0x87, 2, 1, 0,
+     0x91, 10, 0x89, 1, 7, 0x8b, 5, 7, 3, 8, 1, 97] = .ok exMapVs := by rfl
+example : encFields exMapFs exMapVs = .ok exMapWire ∧ parse exMapFs false exMapWire = .ok exMapVs := ⟨rfl, rfl⟩
+/-- why `fixed_len` is excluded: a 2-byte integer is accepted for a `fixed_len=1` field and cannot be re-encoded -/
+example : parse [.uint 0x81 (some 1)] false [0x81, 2, 1, 44] = .ok [.uint 300] ∧
+    encFields [.uint 0x81 (some 1)] [.uint 300] = .error .valueError := ⟨rfl, rfl⟩
 
 end Ndn.C08
